@@ -94,9 +94,10 @@ def compute():
 
 
 def _trim_fact():
-    """the depth to which a RUNNING frame's value stack is read (handler_depth of inspect_frame) is
-    only ever the depth of an exception-table entry that CONTAINS f_lasti (`start <= lasti_before <= end`)
-    or 0: reading more slots than that touches dead (possibly freed) objects"""
+    """the depth to which a RUNNING frame's value stack is read is only ever the depth of an
+    exception-table entry that CONTAINS the instruction position (`start <= pos <= end`, start / end
+    being the first two fields of the entry being scanned) or 0: reading more slots than that touches
+    dead (possibly freed) objects.  Recognised by shape, not by the names of locals."""
     try:
         tree = ast.parse(open(os.path.join(REPO, "stackscope", "_lowlevel_cpython_311.py")).read())
     except Exception:
@@ -104,33 +105,39 @@ def _trim_fact():
     fn = next((n for n in ast.walk(tree) if isinstance(n, ast.FunctionDef) and n.name == "inspect_frame"), None)
     if fn is None:
         return False
-    stores = []
-    ok = True
 
-    def visit(node, guards):
-        nonlocal ok
-        if isinstance(node, ast.Assign) and any(isinstance(t, ast.Name) and t.id == "handler_depth" for t in node.targets):
-            stores.append(node)
-            is_zero = isinstance(node.value, ast.Constant) and node.value.value == 0
-            guarded = any(g for g in guards)
-            if not (is_zero or guarded):
-                ok = False
-        if isinstance(node, ast.If):
-            t = node.test
-            contains = (isinstance(t, ast.Compare) and len(t.ops) == 2 and all(isinstance(o, ast.LtE) for o in t.ops)
-                        and isinstance(t.left, ast.Name) and t.left.id == "start"
-                        and isinstance(t.comparators[0], ast.Name) and t.comparators[0].id == "lasti_before"
-                        and isinstance(t.comparators[1], ast.Name) and t.comparators[1].id == "end")
-            for ch in node.body:
-                visit(ch, guards + [contains])
-            for ch in node.orelse:
-                visit(ch, guards + [False])
-            return
-        for ch in ast.iter_child_nodes(node):
-            visit(ch, guards)
+    def stored(nodes):
+        return {x.id for n in nodes for x in ast.walk(n) if isinstance(x, ast.Name) and isinstance(x.ctx, ast.Store)}
 
-    visit(fn, [])
-    return bool(ok and len(stores) >= 2)
+    scan = None
+    for n in ast.walk(fn):
+        if (isinstance(n, ast.For) and n.orelse and isinstance(n.target, ast.Tuple) and len(n.target.elts) >= 4
+                and any(isinstance(x, ast.Call) and isinstance(x.func, ast.Name) and x.func.id == "_parse_exception_table"
+                        for x in ast.walk(n.iter))):
+            both = stored(n.body) & stored(n.orelse)
+            if len(both) == 1:
+                scan, depth_var = n, next(iter(both))
+                break
+    if scan is None:
+        return False
+    elts = scan.target.elts
+    if not (isinstance(elts[0], ast.Name) and isinstance(elts[1], ast.Name) and isinstance(elts[3], ast.Name)):
+        return False
+    start, end, depth = elts[0].id, elts[1].id, elts[3].id
+    # the only statement of the loop body: `if start <= <pos> <= end: <depth_var> = depth; break`
+    if len(scan.body) != 1 or not isinstance(scan.body[0], ast.If) or scan.body[0].orelse:
+        return False
+    t = scan.body[0].test
+    if not (isinstance(t, ast.Compare) and len(t.ops) == 2 and all(isinstance(o, ast.LtE) for o in t.ops)
+            and isinstance(t.left, ast.Name) and t.left.id == start and isinstance(t.comparators[0], ast.Name)
+            and isinstance(t.comparators[1], ast.Name) and t.comparators[1].id == end):
+        return False
+    ok_body = any(isinstance(x, ast.Assign) and isinstance(x.value, ast.Name) and x.value.id == depth
+                  and any(isinstance(tt, ast.Name) and tt.id == depth_var for tt in x.targets) for x in scan.body[0].body)
+    ok_else = all(not isinstance(x, ast.Assign) or (isinstance(x.value, ast.Constant) and x.value.value == 0) for x in scan.orelse)
+    # no other store of the depth variable anywhere in the function
+    others = [x for x in ast.walk(fn) if isinstance(x, ast.Name) and isinstance(x.ctx, ast.Store) and x.id == depth_var]
+    return bool(ok_body and ok_else and len(others) == 2)
 
 
 if __name__ == "__main__":
